@@ -217,8 +217,15 @@ def rule_must_drain(ctx):
                     not any(e[0] == 'write' for e in ctx.eff.transitive(n)):
                 return True
             return False
-        sx = ctx.symex(inline_depth=3, loop_visits=2, inline_pred=pol)
-        paths = [p for p in sx.run(m) if not p.diverged]
+        try:
+            paths = [p for p in ctx.symex(inline_depth=3, loop_visits=2, inline_pred=pol).run(m) if not p.diverged]
+        except PathLimit:
+            # (build configurations with debug assertions multiply the paths of two trips of the run's loop: the obligation is per trip, one
+            # trip with the step predicates stepped into one level decides it as well)
+            try:
+                paths = [p for p in ctx.symex(inline_depth=2, loop_visits=1, inline_pred=pol, emit_cut=True).run(m) if p.diverged in (False, 'cut')]
+            except PathLimit:
+                raise CheckFailure('MUST-drain: path limit exceeded in %s' % m)
 
         def len_lits(p, chan):
             """(nonempty, empty) facts about the queue established on the path."""
